@@ -525,8 +525,14 @@ Definition blend_field (ds : list items) (picks : list nat) (k : key) : M (key *
            then raise ValueError else raise TypeError
   | PVArr _ xs0 :: r =>
       if forallb (fun x => match x with PVArr _ _ => true | _ => false end) r
-      then match pick_samples (map (fun x => match x with PVArr _ xs => xs | _ => [] end) vs) picks 0 with
-           | Some ys => if length picks =? length xs0 then a <- new_arr ys ;; ret (k, a) else raise ValueError
+      then (* blend_idx = np.random.choice(range(M), S, p=weights) with S = len(values[0]) after
+              np.random.seed(seed): for one seed the draw for S samples is the length-S prefix of a longer one *)
+           (* v[blend_idx == idx]: a Boolean mask of length S on an array of another length is an IndexError *)
+           if negb (forallb (fun x => match x with PVArr _ xs => length xs =? length xs0 | _ => false end) r)
+           then raise IndexError else
+           match pick_samples (map (fun x => match x with PVArr _ xs => xs | _ => [] end) vs)
+                              (firstn (length xs0) picks) 0 with
+           | Some ys => if length xs0 <=? length picks then a <- new_arr ys ;; ret (k, a) else raise ValueError
            | None => raise IndexError
            end
       else raise TypeError
@@ -544,6 +550,56 @@ Definition blend_cells (cells : list val) (picks : list nat) : M val :=
           else clean <- mapM (blend_field ds picks) (map fst d0) ;;
                nv <- new_dict clean ;; replace c0 [DValues nv]
       end
+  end.
+
+(* ------------------------------------------------------------------ blend_cells (linear) *)
+(* _linear_blend: values = [[v] if isinstance(v, (float, int)) else v ...]; S = max(len(v)); every value of
+   length S or 1 (scalars broadcast with np.tile); matched_values = np.empty((S, M)) filled column by column;
+   blend = matched_values @ weights -- a FRESH array of shape (S,), also when every value is a scalar *)
+Definition lin_row (x : pv) : option (list Z) :=
+  match x with PVNum z => Some [z] | PVArr _ xs => Some xs | _ => None end.
+Fixpoint wsum (c : cfg) (rows : list (list Z)) (ws : list Z) (j : nat) : Z :=
+  match rows, ws with
+  | r :: rs, w :: wr => (mulop c (match r with [x] => x | _ => nth j r 0 end) w + wsum c rs wr j)%Z
+  | _, _ => 0%Z
+  end.
+Definition blend_field_linear (c : cfg) (ds : list items) (ws : list Z) (k : key) : M (key * val) :=
+  vs <- mapM (fun d => match dget k d with Some v => view v | None => raise KeyError end) ds ;;
+  if negb (forallb (fun x => match lin_row x with Some _ => true | None => false end) vs) then raise TypeError
+  else
+    let rows := map (fun x => match lin_row x with Some r => r | None => [] end) vs in
+    let S := fold_left Nat.max (map (@length Z) rows) 0 in
+    if negb (forallb (fun r => (length r =? S) || (length r =? 1)) rows) then raise ValueError
+    else a <- new_arr (map (wsum c rows ws) (seq 0 S)) ;; ret (k, a).
+Definition blend_cells_linear (c : cfg) (cells : list val) (ws : list Z) : M val :=
+  match cells with
+  | [] => raise IndexError
+  | c0 :: _ =>
+      ds <- mapM cell_items cells ;;
+      match ds with
+      | [] => raise IndexError
+      | d0 :: dr =>
+          if negb (forallb (same_keys d0) dr) then raise ValueError
+          else if negb (length ws =? length cells) then raise ValueError
+          else clean <- mapM (blend_field_linear c ds ws) (map fst d0) ;;
+               nv <- new_dict clean ;; replace c0 [DValues nv]
+      end
+  end.
+(* MUTANT: matched_values[:, 0] aliased to the first cell's array and accumulated in place:
+   out = values[0]; out *= w0; out += w_i * values[i] *)
+Definition blend_cells_linear_mutant (c : cfg) (cells : list val) (ws : list Z) : M val :=
+  match cells, ws with
+  | c0 :: cr, w0 :: wr =>
+      d0 <- cell_items c0 ;; dr <- mapM cell_items cr ;;
+      clean <- mapM (fun kv =>
+                       t <- iop (mulop c) (snd kv) (PNum w0) ;;
+                       t' <- foldM (fun t dw => match dget (fst kv) (fst dw) with
+                                                | Some v => p <- binop (mulop c) v (PNum (snd dw)) ;; iop Z.add t p
+                                                | None => raise KeyError
+                                                end) (zip dr wr) t ;;
+                       ret (fst kv, t')) d0 ;;
+      nv <- new_dict clean ;; replace c0 [DValues nv]
+  | _, _ => raise IndexError
   end.
 
 (* ------------------------------------------------------------------ further buggy variants *)
@@ -644,7 +700,8 @@ Inductive call :=
 | KAggregateGroup (newtag : Z) (cells : list val) (summarize_premium : bool)
 | KWeightCellValues (cell : val) (weights : list Z)
 | KPolicyYearCell (tag : Z) (cells : list val) (shares : list (option Z))
-| KBlendCells (cells : list val) (picks : list nat).
+| KBlendCells (cells : list val) (picks : list nat)
+| KBlendCellsLinear (cells : list val) (weights : list Z).
 
 Inductive res := RVal (v : val) | RVals (vs : list val) | RItems (d : items) | RNested (ds : list items).
 Definition lift {A} (f : A -> res) (m : M A) : M res := a <- m ;; ret (f a).
@@ -669,6 +726,7 @@ Definition run (c : cfg) (k : call) : M res :=
   | KWeightCellValues cell ws => lift RNested (weight_cell_values c cell ws)
   | KPolicyYearCell t cells shares => lift RVal (policy_year_cell c t cells shares)
   | KBlendCells cells picks => lift RVal (blend_cells cells picks)
+  | KBlendCellsLinear cells ws => lift RVal (blend_cells_linear c cells ws)
   end.
 (* the buggy variants, for the non-vacuity examples and the harness self-test *)
 Definition run_mutant (c : cfg) (k : call) : M res :=
@@ -692,6 +750,7 @@ Definition run_mutant (c : cfg) (k : call) : M res :=
   | KToIncrementalRow cells => lift RVals (to_incremental_row_mutant cells)
   | KWeightCellValues cell ws => lift RNested (weight_cell_values_mutant c cell ws)
   | KBlendCells cells picks => lift RVal (blend_cells_mutant cells picks)
+  | KBlendCellsLinear cells ws => lift RVal (blend_cells_linear_mutant c cells ws)
   end.
 
 (* ------------------------------------------------------------------ observation: frame and alias graph *)
@@ -743,7 +802,9 @@ Fixpoint sig_of (fuel : nat) (n0 : nat) (h : heap) (v : val) : sg :=
                end
            end
   end.
-Inductive rsg := GVal (s : sg) | GVals (l : list sg) | GItems (d : list (key * sg)) | GNested (l : list (list (key * sg))).
+Inductive rsg :=
+| GVal (s : sg) | GVals (l : list sg) | GItems (d : list (key * sg)) | GNested (l : list (list (key * sg)))
+| GBag (l : list sg).      (* observed cells of a result Triangle: order decided by Triangle(...)'s sort *)
 Definition sig_items n0 h (d : items) := map (fun kv => (fst kv, sig_of 4 n0 h (snd kv))) d.
 Definition sig_res (n0 : nat) (h : heap) (r : res) : rsg :=
   match r with
@@ -773,10 +834,21 @@ Fixpoint sg_eqb (exact : bool) (a b : sg) {struct a} : bool :=
   | _, _ => false
   end.
 Definition sgd_eqb exact (d e : list (key * sg)) : bool := sg_eqb exact (SDict d) (SDict e).
+Fixpoint remove_first (f : sg -> bool) (l : list sg) : option (list sg) :=
+  match l with
+  | [] => None
+  | x :: r => if f x then Some r else match remove_first f r with Some r' => Some (x :: r') | None => None end
+  end.
+Fixpoint bag_eqb (exact : bool) (l m : list sg) : bool :=
+  match l with
+  | [] => match m with [] => true | _ => false end
+  | x :: r => match remove_first (sg_eqb exact x) m with Some m' => bag_eqb exact r m' | None => false end
+  end.
 Definition rsg_eqb (exact : bool) (a b : rsg) : bool :=
   match a, b with
   | GVal s, GVal t => sg_eqb exact s t
   | GVals l, GVals m => list_eqb (sg_eqb exact) l m
+  | GVals l, GBag m => bag_eqb exact l m
   | GItems d, GItems e => sgd_eqb exact d e
   | GNested l, GNested m => list_eqb (sgd_eqb exact) l m
   | _, _ => false
